@@ -61,13 +61,19 @@ def generate(chk, thorough, seed, nsim_quick=1200, nsim_thorough=12000):
 def run(chk, decks, clauses, seed, opts_of=None, npts=96):
     """Replay decks into the converter, validate with TraceDeck.  Returns
     (records by tid, verdicts by tid, normalised decks by tid)."""
+    from .. import numberings
     rng = random.Random(seed)
     jobs, nd = [], {}
+    decks = [adeck.normalise(d) for d in decks]
+    # same meaning under other cell / surface numbers: every third deck is renumbered, alternately by one of three
+    # fixed maps and by a member of the family of Numberings.tla that is admissible for the deck
+    renumbered = [i for i, d in enumerate(decks) if i % 3 == 1 and not any(c.get('impsrc') == 'data' for c in d['cells'])]
+    family = numberings.choose(chk, decks, [i for i in renumbered if (i // 3) % 2 == 1], random.Random(seed + 1))
     for i, d in enumerate(decks):
-        d = adeck.normalise(d)
-        if i % 3 == 1 and not any(c.get('impsrc') == 'data' for c in d['cells']):
-            ren = adeck.RENUMBERINGS[1 + (i // 3) % 3]       # same meaning under other cell / surface numbers
-            d = adeck.renumber(d, *ren)
+        if i in family:
+            d = numberings.apply(d, family[i])
+        elif i in set(renumbered):
+            d = adeck.renumber(d, *adeck.RENUMBERINGS[1 + (i // 3) % 3])
         d['pts'] = adeck.grid_points(rng, npts)
         tid = i + 1
         nd[tid] = d
